@@ -261,24 +261,27 @@ def make_regulariser(case, o):
 
     lh = lam * (math.sqrt(n) if kind == "l1" else 1.0)
     lh = lh * reg.get("lh_factor", 1.0)
-    if reg.get("conv", "closure") == "args":
-        def h(x, *a):
-            o.hcalls.append(tuple(a))
-            return h_core(x, *a) if len(a) == 1 else float("nan")
-
-        def prox(x, u, *a):
-            o.proxcalls.append(tuple(a))
-            return prox_core(x, u, *a) if len(a) == 1 else np.full(len(x), np.nan)
-        return {"h": h, "lh": lh, "prox_uh": prox, "argsh": (lam,), "argsprox": (lam,)}
+    conv = reg.get("conv", "closure")
+    h_args = conv in ("args", "argsh")
+    p_args = conv in ("args", "argsprox")
 
     def h(x, *a):
         o.hcalls.append(tuple(a))
+        if h_args:
+            return h_core(x, *a) if len(a) == 1 else float("nan")
         return h_core(x, lam)
 
     def prox(x, u, *a):
         o.proxcalls.append(tuple(a))
+        if p_args:
+            return prox_core(x, u, *a) if len(a) == 1 else np.full(len(x), np.nan)
         return prox_core(x, u, lam)
-    return {"h": h, "lh": lh, "prox_uh": prox}
+    out = {"h": h, "lh": lh, "prox_uh": prox}
+    if h_args:
+        out["argsh"] = (lam,)
+    if p_args:
+        out["argsprox"] = (lam,)
+    return out
 
 
 def reg_value(case, x):
@@ -428,6 +431,56 @@ def run_solve(case, iter_hook=None, dykstra_log=None, x0_override=None, np_seed=
             dykstra_log.uninstall()
     o.inputs_after = (x0, kw.get("bounds"), kw.get("user_params"))
     return o
+
+
+class DykstraLog(object):
+    """Replaces the name `dykstra` in every dfols module that imported it by a wrapper that calls the real routine
+    with counting projector proxies. From the proxies alone it reconstructs the number of sweeps and the routine's
+    stopping quantity of the last sweep (the sum of squared moves between consecutive projector outputs), hence
+    whether the call stopped by its rule or by the sweep cap."""
+    MODS = (_M, _C, _S, _T)
+
+    def __init__(self):
+        self.real = _U.dykstra
+        self.calls = []       # dict(out, by_rule, sweeps, tol, p, max_iter, x_in)
+        self.saved = None
+        for mod in self.MODS:
+            if not hasattr(mod, "dykstra"):
+                raise HarnessError("dfols internals changed: %s has no name 'dykstra'" % mod.__name__)
+
+    def wrapped(self, P, x0, max_iter=100, tol=1e-10):
+        st_ = {"cnt": 0, "last": np.array(x0, dtype=float, copy=True), "cI": 0.0, "sweeps": []}
+
+        def wrap(i, Pi):
+            def w(v):
+                out = Pi(v)
+                if i == 0:
+                    if st_["cnt"] > 0:
+                        st_["sweeps"].append(st_["cI"])
+                    st_["cI"] = 0.0
+                    st_["cnt"] += 1
+                st_["cI"] += float(np.linalg.norm(out - st_["last"]) ** 2)
+                st_["last"] = np.array(out, dtype=float, copy=True)
+                return out
+            return w
+        x = self.real([wrap(i, Pi) for i, Pi in enumerate(P)], x0, max_iter=max_iter, tol=tol)
+        st_["sweeps"].append(st_["cI"])
+        by_rule = st_["cnt"] > 0 and st_["sweeps"][-1] < tol
+        self.calls.append({"out": np.array(x, dtype=float, copy=True), "by_rule": bool(by_rule), "sweeps": st_["cnt"],
+                           "tol": float(tol), "p": len(P), "max_iter": max_iter, "x_in": np.array(x0, dtype=float, copy=True)})
+        return x
+
+    def install(self, o):
+        o.dyk = self
+        self.saved = [(mod, mod.dykstra) for mod in self.MODS]
+        for mod in self.MODS:
+            mod.dykstra = self.wrapped
+
+    def uninstall(self):
+        if self.saved:
+            for mod, fn in self.saved:
+                mod.dykstra = fn
+            self.saved = None
 
 
 # ------------------------------------------------------------------------------------------------
